@@ -210,6 +210,8 @@ def np_load(path, mmap_mode=None):
         return arr.copy()
     if isinstance(arr, lam.LArr):
         return arr
+    if mmap_mode not in ('r', 'r+', 'c', 'w+'):
+        raise ValueError("mode must be one of ['r', 'c', 'r+', 'w+']")
     m = snp.memmap(arr.a if mmap_mode == 'r+' else arr.a.copy(), arr.dtype)
     m._mmap = _Closer()
     m._entry = e
